@@ -1,7 +1,12 @@
 # Per-property configuration of bin/check: which correspondence slices (harness
 # sub-commands) the property's theorems depend on, and extra trusted-base notes.
 # slice entry: (name, {tier: [extra harness args]})
+CRDT = [("crdt-counter", {"quick": ["-n", "120"], "thorough": ["-n", "4000"], "search": ["-n", "1500"]}),
+        ("crdt-map", {"quick": ["-n", "150"], "thorough": ["-n", "4000"], "search": ["-n", "1500"]}),
+        ("crdt-list", {"quick": ["-n", "150"], "thorough": ["-n", "4000"], "search": ["-n", "1500"]})]
 PROPS = {
+    "C01": {"slices": CRDT, "trusted": [], "assumptions": ["clocks below the half-range wrap", "delivery in log order, whole transaction units"]},
+    "C02": {"slices": CRDT, "trusted": [], "assumptions": ["clocks below the half-range wrap"]},
     "C15": {
         "slices": [("time", {"quick": [], "thorough": [], "search": []})],
         "trusted": [],
